@@ -55,7 +55,7 @@ Inductive param :=
 | PRecvG (tag : N) (mut : bool)
 | PRecvT (tag : N) (mut : bool) (q : query)
 | PFetch (k : fkind) (q : query)
-| PSender (gtags ttags : list N).
+| PSender (evs : list (bool * N)).          (* (targeted?, tag) in tuple order *)
 (* resolved parameters (component indices), with their fetcher caches *)
 Inductive rparam :=
 | RRecvG (mut : bool)
@@ -962,13 +962,13 @@ Fixpoint resolve_query (q : query) (w : world) : res query :=
   | QEid => ROk QEid w
   end.
 
-Fixpoint register_set (targeted : bool) (tags : list N) (w : world) : res (list (N * N)) :=
-  match tags with
+Fixpoint register_set (evs : list (bool * N)) (w : world) : res (list (bool * N * N)) :=
+  match evs with
   | [] => ROk [] w
-  | t :: rest =>
+  | (targeted, t) :: rest =>
       do (k, w1) <- (if targeted then add_targeted_event t w else add_global_event RFUEL t w);
-      do (r, w2) <- register_set targeted rest w1;
-      ROk ((t, fst k) :: r) w2
+      do (r, w2) <- register_set rest w1;
+      ROk ((targeted, t, fst k) :: r) w2
   end.
 
 Definition init_param (p : param) (c : hconfig) (w : world) : res hconfig :=
@@ -989,12 +989,13 @@ Definition init_param (p : param) (c : hconfig) (w : world) : res hconfig :=
       do (q', w1) <- resolve_query q w;
       ROk (mkCfg (cf_recv c) (cf_access c) (cf_filter c) (cf_sg c) (cf_st c) (cf_cas c ++ [access_of q'])
                  (fold_left (fun s x => sinsert x s) (leaves q') (cf_refs c)) (cf_params c ++ [RFetch k q' []])) w1
-  | PSender gs ts =>
-      do (g, w1) <- register_set false gs w;
-      do (t, w2) <- register_set true ts w1;
+  | PSender evs =>
+      do (r, w1) <- register_set evs w;
+      let g := flat_map (fun x : bool * N * N => if fst (fst x) then [] else [(snd (fst x), snd x)]) r in
+      let t := flat_map (fun x : bool * N * N => if fst (fst x) then [(snd (fst x), snd x)] else []) r in
       ROk (mkCfg (cf_recv c) (cf_access c) (cf_filter c)
                  (fold_left (fun s x => sinsert (snd x) s) g (cf_sg c)) (fold_left (fun s x => sinsert (snd x) s) t (cf_st c))
-                 (cf_cas c) (cf_refs c) (cf_params c ++ [RSender g t])) w2
+                 (cf_cas c) (cf_refs c) (cf_params c ++ [RSender g t])) w1
   end.
 Fixpoint init_params (ps : list param) (c : hconfig) (w : world) : res hconfig :=
   match ps with
